@@ -185,6 +185,36 @@ pub fn exec(cfg: &Config, ops: &[VOp]) -> ExecResult {
                     *probes.entry("search_returned_fewer_than_min_k_len").or_insert(0) += 1;
                 }
                 bad = judge(cfg, &model, &qf, *k, &res, what, removed_any);
+                if bad.is_none() {
+                    // exact search over the index's current contents (what `iter` hands out after
+                    // this history): same per-result rules, and the i-th reported distance must be
+                    // the i-th smallest true distance
+                    let items: Vec<(NodeId, std::sync::Arc<[f32]>)> = idx.iter().collect();
+                    let exact = grafeo_core::index::vector::brute_force_knn(items.iter().map(|(id, v)| (*id, &**v)), &qf, *k, metric_of(cfg.metric));
+                    bad = judge(cfg, &model, &qf, *k, &exact, "brute_force_knn", removed_any);
+                    let mut truth: Vec<Option<f64>> = model.values().map(|v| true_distance(v, &qf, cfg.metric)).collect();
+                    if bad.is_none() && truth.iter().all(|t| t.is_some_and(f64::is_finite)) {
+                        let mut t: Vec<f64> = truth.drain(..).flatten().collect();
+                        t.sort_by(|a, b| a.partial_cmp(b).unwrap());
+                        if exact.len() != (*k).min(t.len()) {
+                            bad = Some((format!("C18 | brute_force_knn | wrong-result-count | metric={}", metric_of(cfg.metric).name()), format!("{} results for k={k} over {} vectors", exact.len(), t.len())));
+                        } else {
+                            let mag: f64 = match cfg.metric % 4 {
+                                2 => model.values().map(|v| v.iter().zip(&qf).map(|(x, y)| (f64::from(*x) * f64::from(*y)).abs()).sum::<f64>()).fold(0.0, f64::max),
+                                0 => 2.0,
+                                _ => t.last().copied().unwrap_or(0.0).abs(),
+                            };
+                            let tol = 1e-3 * mag.max(1.0) + 1e-4;
+                            for (i, (id, d)) in exact.iter().enumerate() {
+                                if d.is_finite() && (f64::from(*d) - t[i]).abs() > tol {
+                                    bad = Some((format!("C18 | brute_force_knn | not-the-nearest | metric={}", metric_of(cfg.metric).name()), format!("rank {i}: id {} at {d}, but the {i}-th smallest true distance is {}", id.as_u64(), t[i])));
+                                    break;
+                                }
+                            }
+                        }
+                        *probes.entry("exact_search_checked").or_insert(0) += 1;
+                    }
+                }
                 digest = digest.rotate_left(7) ^ fnv(format!("{:?}", res.iter().map(|(i, _)| i.as_u64()).collect::<Vec<_>>()).as_bytes());
             }
             VOp::Batch(qs, k) => {
